@@ -129,3 +129,111 @@ def make(backend, system, rows, momentum=False):
     if backend == "awkward":
         return ak_flat(system, rows, momentum)
     raise KeyError(backend)
+
+
+# ----------------------------------------------------------------------------- layouts
+N_ELEMS = 6
+NP_LAYOUTS = ("np1", "np2")
+AK_LAYOUTS = ("flat", "jagged", "nested", "optrec", "optlist", "regular")
+OPT_MASK = [False, True, False, False, True, False]  # True = missing element (optrec)
+JAG_COUNTS = [2, 0, 3, 1]
+NEST_COUNTS = [2, 1, 0, 1]
+# optlist: a jagged array [[e0,e1], None, [e2,e3,e4], [e5]]
+
+
+def present_indices(layout):
+    if layout == "optrec":
+        return [i for i, m in enumerate(OPT_MASK) if not m]
+    return list(range(N_ELEMS))
+
+
+def shape_values(layout, values, as_option=True):
+    """arrange N_ELEMS per-element plain values in the structure of `layout`"""
+    vals = list(values)
+    if layout == "np1":
+        return numpy.array(vals)
+    if layout == "np2":
+        return numpy.array(vals).reshape(2, 3)
+    arr = ak.Array(numpy.array(vals))
+    if layout == "flat":
+        return arr
+    if layout == "optrec":
+        return ak.mask(arr, ~numpy.array(OPT_MASK)) if as_option else arr
+    if layout == "jagged":
+        return ak.unflatten(arr, JAG_COUNTS)
+    if layout == "nested":
+        return ak.unflatten(ak.unflatten(arr, JAG_COUNTS), NEST_COUNTS)
+    if layout == "regular":
+        return ak.to_regular(ak.unflatten(arr, 3))
+    if layout == "optlist":
+        j = ak.unflatten(arr, [2, 3, 1])
+        return ak.Array([j[0], None, j[1], j[2]]) if as_option else ak.unflatten(arr, [2, 0, 3, 1])
+    raise KeyError(layout)
+
+
+def build_layout(layout, system, rows, momentum=False, spelling="generic", extra=False, alt=0):
+    """vector array in the given layout holding N_ELEMS rows"""
+    assert len(rows) == N_ELEMS
+    d = len(system) + 1
+    if layout in NP_LAYOUTS:
+        a = np_array(system, rows, momentum, spelling=spelling if spelling == "momentum" else None)
+        return a.reshape(2, 3) if layout == "np2" else a
+    ex = {"charge": numpy.array([1, -1, 0, 2, -2, 1]), "tag": numpy.array([0.5, 1.5, 2.5, 3.5, 4.5, 5.5])} if extra else None
+    flat = ak_flat(system, rows, momentum, spelling, ex, alt)
+    if layout == "flat":
+        return flat
+    if layout == "optrec":
+        return ak.mask(flat, ~numpy.array(OPT_MASK))
+    if layout == "jagged":
+        return ak.unflatten(flat, JAG_COUNTS)
+    if layout == "nested":
+        return ak.unflatten(ak.unflatten(flat, JAG_COUNTS), NEST_COUNTS)
+    if layout == "regular":
+        return ak.to_regular(ak.unflatten(flat, 3))
+    if layout == "optlist":
+        j = ak.unflatten(flat, [2, 3, 1])
+        name = ak_record_name(d, momentum)
+        parts = [ak.to_list(j[0]), None, ak.to_list(j[1]), ak.to_list(j[2])]
+        out = ak.Array(parts, with_name=name, behavior=vector.backends.awkward.behavior)
+        return out
+    raise KeyError(layout)
+
+
+def skeleton(x):
+    """list structure with leaves replaced by 0 and missing values kept as None"""
+    if isinstance(x, ak.Array):
+        x = ak.to_list(x)
+    elif isinstance(x, numpy.ndarray):
+        return ("ndarray", x.shape)
+
+    def rec(v):
+        if v is None:
+            return None
+        if isinstance(v, list):
+            return [rec(u) for u in v]
+        return 0
+
+    return rec(x)
+
+
+def vector_skeleton(v):
+    """skeleton of a vector array/record: taken from its first coordinate field"""
+    if isinstance(v, numpy.ndarray):
+        return ("ndarray", v.shape)
+    if isinstance(v, ak.Record):
+        return 0
+    f = ak.fields(v)
+    if not f:
+        return skeleton(v)
+    return skeleton(v[f[0]])
+
+
+def flat_values(x):
+    """flat list of present leaf values (missing dropped)"""
+    if isinstance(x, ak.Array):
+        return ak.to_list(ak.drop_none(ak.flatten(x, axis=None))) if x.ndim > 1 or True else ak.to_list(x)
+    if isinstance(x, numpy.ndarray):
+        return x.reshape(-1).tolist()
+    if isinstance(x, numpy.generic):
+        return [x.item()]
+    return [x]
